@@ -91,6 +91,29 @@ def _make_witness_eval(eng, I, sh, params):
     return ev
 
 
+_BYTE_WITNESSES = [b"\xff", b"\x00\xd8", b"\xd8\x00", b"\x81", b"\xc0\x80", b"\x00"]
+_TEXT_WITNESSES = ["\u20ac", "a", "\ud800", "\U0001F600", "\u00e9", ""]
+
+
+def _witness_variants(base):
+    bkeys = [k for k, v in base.items() if isinstance(v, (bytes, bytearray))]
+    tkeys = [k for k, v in base.items() if isinstance(v, tuple) and v and v[0] == "text"]
+    for k in tkeys:
+        for w in _TEXT_WITNESSES:
+            for n in (max(1, base[k][2]), 1, 2, 4, 8):
+                v = dict(base)
+                v[k] = w * n if w else ""
+                yield v
+    for k in bkeys:
+        n = len(base[k])
+        for w in _BYTE_WITNESSES:
+            for ln in (n, n + 2, 2, 4, 8):
+                v = dict(base)
+                b = (w * (ln // len(w) + 1))[:ln]
+                v[k] = bytearray(b) if isinstance(base[k], bytearray) else b
+                yield v
+
+
 def explore(hname, params, opts):
     """Explore every path of harness `hname` for `params`. Returns a JSON-able task result."""
     t_start = time.time()
@@ -240,6 +263,27 @@ def explore(hname, params, opts):
             if confirmed:
                 rep["confirmed"] = True
                 break
+        if not rep["confirmed"] and o["models"]:
+            # neighbourhood search: where the model's bytes / text stand for an abstracted fact (A-codec:
+            # "undecodable", "unencodable"), substitute known witnesses of the same shape
+            base = {k: unjson(v) for k, v in o["models"][0]["inputs"].items()}
+            tried = 0
+            for variant in _witness_variants(base):
+                tried += 1
+                if tried > 24:
+                    break
+                try:
+                    nr = native_run(h, params, variant)
+                except Exception:
+                    continue
+                confirmed = (name in nr.get("failed", [])) or (
+                    name.startswith("no-exception-escapes-harness") and nr.get("exception") is not None)
+                if confirmed:
+                    rep["attempts"].append({"inputs": jsonable(variant), "native_failed_checks": nr.get("failed"),
+                                            "native_exception": nr.get("exception"), "assume_failed": False,
+                                            "confirmed": True, "from": "witness-substitution"})
+                    rep["confirmed"] = True
+                    break
         replays[name] = rep
     return {
         "harness": hname,
